@@ -738,6 +738,19 @@ func (c *Config) mutualVersion(vers uint16) (uint16, bool) {
 	if vers > maxVersion {
 		vers = maxVersion
 	}
+	// VersionGMSSL (0x0101) is numerically below VersionSSL30 (0x0300), so
+	// the range check above also lets through values that are no protocol
+	// version at all (0x0102..0x02ff). Only return versions that are
+	// really implemented; GMSSL only if GM support is configured.
+	switch vers {
+	case VersionGMSSL:
+		if c == nil || c.GMSupport == nil {
+			return 0, false
+		}
+	case VersionSSL30, VersionTLS10, VersionTLS11, VersionTLS12:
+	default:
+		return 0, false
+	}
 	return vers, true
 }
 
